@@ -15,7 +15,7 @@ import tempfile
 import time
 
 from . import kani, runner, vx
-from .props import PROPS, KANI
+from .props import PROPS, KANI, WITNESS_TESTS
 
 VERIF = os.path.dirname(os.path.dirname(os.path.abspath(__file__)))
 
@@ -115,6 +115,16 @@ def replay_values(harness, values):
     sc.cleanup()
 
 
+def run_witness(name):
+  spec = WITNESS_TESTS[name]
+  sc = kani.Scratch("witness")
+  try:
+    sc.populate(patch_tracing=False)
+    return kani.run_witness_test(sc, os.path.join(VERIF, spec["file"]))
+  finally:
+    sc.cleanup()
+
+
 def write_replay(pid, name, payload):
   os.makedirs(os.path.join(VERIF, "replays"), exist_ok=True)
   fn = os.path.join(VERIF, "replays", "%s-%s.json" % (pid, re.sub(r"[^A-Za-z0-9_.-]+", "_", name)))
@@ -124,6 +134,17 @@ def write_replay(pid, name, payload):
 
 def do_replay(pid, path):
   d = json.load(open(path))
+  if d.get("witness_test"):
+    rr = run_witness(d["witness_test"])
+    print(rr["output"][-2500:])
+    if rr["void"]:
+      print("UNDECIDED witness test did not run")
+      return 2
+    if rr["failed"]:
+      print("VIOLATION property=%s replay=%s" % (pid, path))
+      return 1
+    print("witness passes on the current tree: the recorded scenario no longer violates %s" % d.get("obligation"))
+    return 0
   if not d.get("harness") or not d.get("values"):
     print("replay file %s names obligation %s; it carries no failing input (no-failing-input-found). Verifier output:" % (path, d.get("obligation")))
     print(d.get("verifier_output", "")[:3000])
@@ -257,6 +278,7 @@ def main(argv):
 
   # ---- violations
   violations = []
+  witness_cache = {}
   # Verus failures not known
   seen_v = set()
   for f in new_fail:
@@ -274,6 +296,18 @@ def main(argv):
         if rr["failed"]:
           tail = ""
         break
+    if tail:
+      for w, ws in WITNESS_TESTS.items():
+        if f.get("fn") in ws.get("pairs_fn", []) and pid in ws["props"]:
+          if w not in witness_cache:
+            witness_cache[w] = run_witness(w)
+          rr = witness_cache[w]
+          payload.update({"witness_test": w, "witness_scenario": ws["what"], "replay_cmd": rr["cmd"], "replay_output": rr["output"][-3000:],
+                          "replay_failed_on_real_code": rr["failed"],
+                          "note": "Verus gives no counterexample; this is the fixed witness scenario registered for the obligation, run against the current tree"})
+          if rr["failed"]:
+            tail = ""
+          break
     payload["rerun"] = "./check %s --replay <this file>" % pid
     path = write_replay(pid, f["name"], payload)
     violations.append((f["name"], path, tail))
